@@ -183,7 +183,18 @@ func c17Judge(c *Ctx, cs *Case) {
 		}
 		return
 	}
-	v, m, _ := stdJudge(c, cs, RunOpts{Events: "io"}, JudgeOpts{Events: true})
+	var v string
+	var m *ModelOut
+	if cs.Gen == "long-runs" {
+		m = RunModel(cs.Src, cs.Stdin, false, 400000000)
+		if m.Res == nil || m.Res.OOD != "" {
+			c.Count("skipped_out_of_domain", 1)
+			return
+		}
+		v = CompareModel(c, m, RunLib(cs.Src, RunOpts{MaxSteps: int64(3*m.Res.Steps + 10000)}), JudgeOpts{})
+	} else {
+		v, m, _ = stdJudge(c, cs, RunOpts{Events: "io"}, JudgeOpts{Events: true})
+	}
 	if v == "" && m.Res != nil {
 		c.Nontrivial(cs.Src)
 		outcome := "value"
@@ -427,6 +438,18 @@ func c17Run(c *Ctx) {
 			c17Judge(c, &Case{Gen: "nested-builtins", Src: src, X: map[string]string{"fn": "nested", "nargs": "n"}})
 		}
 	}
+	// 3c. long runs: every built-in still computes its function after the run has made 150 000 (quick) /
+	// 2 500 000 (thorough) built-in calls
+	{
+		N := fmt.Sprint(c.N(150000, 2500000))
+		tail := Lines(Print(BI("abs", "-3")), Print(BI("sqrt", "16")), Print(BI("pow", "2", "10")), Print(BI("round", "2.5")), Print(BI("min", "3", "1", "2")), Print(BI("max", "[4, 9]")), Print(BI("sin", "0")), Print(BI("cos", "0")), Print(BI("tan", "0")), Print(BI("len", "[1, 2]")))
+		for _, body := range []string{"s = s + " + BI("abs", "-1") + ";", "s = s + " + BI("max", "i", "1") + " - " + BI("min", "i", "1") + ";", "s = " + BI("round", "s + 0.6") + ";", "s = s + " + BI("sqrt", "4") + " + " + BI("pow", "1", "i") + ";"} {
+			src := Lines(Var("s", "0"), For(Var("i", "0"), "i < "+N, "i = i + 1", "{ "+body+" }"), Print("s")) + tail
+			if c.Mine() {
+				c17Judge(c, &Case{Gen: "long-runs", Src: src, X: map[string]string{"fn": "long", "nargs": "n"}})
+			}
+		}
+	}
 	// 4. clock: causal bracket around the child process
 	for k := 0; k < 3; k++ {
 		if c.Mine() {
@@ -443,7 +466,7 @@ func init() {
 		Run:         c17Run,
 		Judge:       c17Judge,
 		MustCount: func(c *Ctx) []string {
-			out := []string{"outcome:value", "outcome:fault", "results:abs", "results:sqrt", "results:sin", "results:cos", "results:tan", "results:round", "results:pow", "gen:min-max-permutations", "gen:nested-builtins", "clock_in_bracket", "cli_runs", "fault:Arity", "fault:BuiltinFailure"}
+			out := []string{"outcome:value", "outcome:fault", "results:abs", "results:sqrt", "results:sin", "results:cos", "results:tan", "results:round", "results:pow", "gen:min-max-permutations", "gen:nested-builtins", "gen:long-runs", "clock_in_bracket", "cli_runs", "fault:Arity", "fault:BuiltinFailure"}
 			return out
 		},
 	})
